@@ -110,10 +110,15 @@ fn main() -> Result<(), u32>
      * Set up the signal handler.
      */
     if signal_hook::flag::register(
-        signal_hook::consts::SIGTERM | signal_hook::consts::SIGINT,
+        signal_hook::consts::SIGTERM,
         Arc::clone(&app_context.stop_commanded),
     )
     .is_err()
+        || signal_hook::flag::register(
+            signal_hook::consts::SIGINT,
+            Arc::clone(&app_context.stop_commanded),
+        )
+        .is_err()
     {
         error!("[ref: 26] Failed to register signal handler");
         return Err(INIT_ERR_CODE);
